@@ -30,9 +30,11 @@ theorem parseConnectHead_sat (level : Nat) (data : List Nat) :
           · refine sat_idx (by omega) fun flags => ?_
             split
             · trivial
-            · refine sat_idx (by omega) fun k0 => sat_idx (by omega) fun k1 => ?_
-              rw [sat_ok]
-              omega
+            · split
+              · trivial
+              · refine sat_idx (by omega) fun k0 => sat_idx (by omega) fun k1 => ?_
+                rw [sat_ok]
+                omega
 
 theorem parseWill_sat (v5 : Bool) (data : List Nat) (cursor : Nat) (t : ConnTail) (hc : cursor ≤ data.length) :
     Sat (parseWill v5 data cursor t) (fun _ c => cursor ≤ c ∧ c ≤ data.length) := by
@@ -113,18 +115,21 @@ theorem Connack5.parse_sat (data : List Nat) (hl : data.length ≤ vbiMax) :
   unfold Connack5.parse
   split
   · trivial
-  · refine sat_idx (by omega) fun flags => sat_idx (by omega) fun code => ?_
+  · refine sat_idx (by omega) fun flags => ?_
     split
     · trivial
-    · refine sat_bind (parsePropsAt_sat _ _ data 2 (by omega)) fun pp pc ⟨_, h4, _, _, _⟩ => ?_
-      simp only
-      refine sat_vbiOf (by omega) ?_
-      rw [sat_ok]; exact h4
+    · refine sat_idx (by omega) fun code => ?_
+      split
+      · trivial
+      · refine sat_bind (parsePropsAt_sat _ _ data 2 (by omega)) fun pp pc ⟨_, h4, _, _, _⟩ => ?_
+        simp only
+        refine sat_vbiOf (by omega) ?_
+        rw [sat_ok]; exact h4
 
 /-! ### PUBLISH -/
 
-theorem parsePublishHead_sat (pw flags : Nat) (data : List Nat) :
-    Sat (parsePublishHead pw flags data)
+theorem parsePublishHead_sat (v5 : Bool) (pw flags : Nat) (data : List Nat) :
+    Sat (parsePublishHead v5 pw flags data)
       (fun tp c => c ≤ data.length ∧ strSize tp.1 + (if tp.2.isSome then pw else 0) = c) := by
   unfold parsePublishHead
   simp only
@@ -133,23 +138,25 @@ theorem parsePublishHead_sat (pw flags : Nat) (data : List Nat) :
   · refine sat_sliceFrom (by omega) fun d hd => ?_
     refine sat_bind (decStr_sat d) fun topic c ⟨h1, h2, _⟩ => ?_
     split
+    · trivial
     · split
-      · trivial
-      · refine sat_slice (by omega) (by omega) fun idb hi => ?_
-        split
+      · split
         · trivial
-        · rw [sat_ok]
-          simp only [strSize, Option.isSome_some, if_true]
-          omega
-    · rw [sat_ok]
-      simp only [strSize, Option.isSome_none]
-      simp
-      omega
+        · refine sat_slice (by omega) (by omega) fun idb hi => ?_
+          split
+          · trivial
+          · rw [sat_ok]
+            simp only [strSize, Option.isSome_some, if_true]
+            omega
+      · rw [sat_ok]
+        simp only [strSize, Option.isSome_none]
+        simp
+        omega
 
 theorem Publish3.parse_sat (pw flags : Nat) (data : List Nat) (hl : data.length ≤ vbiMax) :
     Sat (Publish3.parse pw flags data) (fun _ c => c ≤ data.length) := by
   unfold Publish3.parse
-  refine sat_bind (parsePublishHead_sat pw flags data) fun tp c ⟨h1, h2⟩ => ?_
+  refine sat_bind (parsePublishHead_sat false pw flags data) fun tp c ⟨h1, h2⟩ => ?_
   refine sat_usub h1 ?_
   refine sat_sliceFrom h1 fun payload hp => ?_
   simp only
@@ -159,7 +166,7 @@ theorem Publish3.parse_sat (pw flags : Nat) (data : List Nat) (hl : data.length 
 theorem Publish5.parse_sat (pw flags : Nat) (data : List Nat) (hl : data.length < vbiMax) :
     Sat (Publish5.parse pw flags data) (fun _ c => c ≤ data.length) := by
   unfold Publish5.parse
-  refine sat_bind (parsePublishHead_sat pw flags data) fun tp c ⟨h1, h2⟩ => ?_
+  refine sat_bind (parsePublishHead_sat true pw flags data) fun tp c ⟨h1, h2⟩ => ?_
   refine sat_bind (P := fun pp c' => c ≤ c' ∧ c' ≤ data.length ∧ c + vbiSize pp.2 + pp.1.size ≤ c' + 1) ?_
     fun pp c' ⟨h3, h4, h5⟩ => ?_
   · split
@@ -257,7 +264,9 @@ theorem parseIdFront_sat (site : String) (pw : Nat) (data : List Nat) :
   split
   · trivial
   · refine sat_slice (by omega) (by omega) fun idb hi => ?_
-    rw [sat_ok]; omega
+    split
+    · trivial
+    · rw [sat_ok]; omega
 
 theorem Subscribe3.parse_sat (pw : Nat) (data : List Nat) (hl : data.length ≤ vbiMax) :
     Sat (Subscribe3.parse pw data) (fun _ c => c ≤ data.length) := by
